@@ -262,7 +262,7 @@ fn base_top(msgs: &mut MsgGen, version: u64, tgt_key: usize, with_roles: bool) -
 }
 
 #[derive(Clone, Copy, Debug, PartialEq)]
-enum Kind { Plain, Deleg, RotateOnline, RotateTargets, SameVersion, FirstCycle }
+enum Kind { Plain, Deleg, RotateOnline, RotateTargets, SameVersion, FirstCycle, RotateSnapRestart }
 
 struct Scenario {
     name: String,
@@ -278,6 +278,9 @@ fn scenario(kind: Kind, cs: bool, msgs: &mut MsgGen, world: &mut World<'_>) -> S
     let e1 = (8usize, 9usize, 10usize);
     let e2 = match kind {
         Kind::RotateOnline => (0, 2, 10),
+        // only the snapshot key is replaced; the repository restarts its online roles at low versions
+        // (recovery from inflated versions, C14): the stored timestamp still verifies under the new root
+        Kind::RotateSnapRestart => (8, 2, 10),
         Kind::RotateTargets => (8, 9, 4),
         _ => e1,
     };
@@ -285,18 +288,21 @@ fn scenario(kind: Kind, cs: bool, msgs: &mut MsgGen, world: &mut World<'_>) -> S
     let root2 = simple_root(2, cs, (vec![7], 1), (vec![e2.0], 1), (vec![e2.1], 1), (vec![e2.2], 1), msgs.next(), &[7]);
     let with_roles = kind == Kind::Deleg;
     let mut repo = |v: u64, keys: (usize, usize, usize), with_root2: bool, now: i64, world: &mut World<'_>, msgs: &mut MsgGen| -> ACycle {
-        let (top, roles) = base_top(msgs, v, keys.2, with_roles);
+        // v = 1000 + n: online roles at version n, targets at 1000 + n
+        let (vo, vt) = if v >= 1000 { (v - 1000, v) } else { (v, v) };
+        let (top, roles) = base_top(msgs, vt, keys.2, with_roles);
         let online = Online { ts_sigs: valid_sigs(&[keys.0]), snap_sigs: valid_sigs(&[keys.1]), ts_expires: DAY, snap_expires: 3 * DAY };
-        let mut asm = assemble(world, cs, v, v, &top, &roles, Pin { length: true, hash: true }, &online, msgs);
+        let mut asm = assemble(world, cs, vo, vo, &top, &roles, Pin { length: true, hash: true }, &online, msgs);
         if with_root2 {
             asm.server.push((AName::RootV(2), AResp::File(AFile::plain(AContent::Root(root2.clone())))));
         }
         ACycle { limits: ALimits::default(), safe: true, now, server: asm.server, shipped: Some(root1.clone()), reads: vec![] }
     };
     let rotates = e2 != e1;
-    let a = repo(5, e1, false, 0, world, msgs);
+    let a = repo(if kind == Kind::RotateSnapRestart { 900 } else { 5 }, e1, false, 0, world, msgs);
     let cut = match kind {
         Kind::SameVersion => ACycle { now: 100, ..a.clone() },
+        Kind::RotateSnapRestart => repo(1002, e2, rotates, 100, world, msgs),
         _ => repo(6, e2, rotates, 100, world, msgs),
     };
     let older = repo(3, e1, false, 200, world, msgs);
@@ -330,12 +336,12 @@ fn main() {
     let top_path: PathBuf = keep.clone().unwrap_or_else(|| top.path().to_path_buf());
     let kinds: Vec<(Kind, bool)> = if thorough {
         let mut v = Vec::new();
-        for k in [Kind::Plain, Kind::Deleg, Kind::RotateOnline, Kind::RotateTargets, Kind::SameVersion, Kind::FirstCycle] {
+        for k in [Kind::Plain, Kind::Deleg, Kind::RotateOnline, Kind::RotateTargets, Kind::SameVersion, Kind::FirstCycle, Kind::RotateSnapRestart] {
             for cs in [false, true] { v.push((k, cs)); }
         }
         v
     } else {
-        vec![(Kind::Plain, r.chance(1, 2)), (Kind::RotateOnline, r.chance(1, 2)), (Kind::Deleg, true)]
+        vec![(Kind::Plain, r.chance(1, 2)), (Kind::RotateOnline, r.chance(1, 2)), (Kind::Deleg, true), (Kind::RotateSnapRestart, r.chance(1, 2))]
     };
     for (si, (kind, cs)) in kinds.iter().enumerate() {
         let mut world = World::new(&pool, Names::default());
